@@ -1725,7 +1725,7 @@ def c19_sites(repo_root, tier):
         f"{n_filters} filter callables: no argument is converted to text with Python's str()" if not bad else f"str() of a data argument: {bad[:4]}")
     _ob(obs, "liquid2.builtin.filters.find_filters:HasFilter.__call__/site.any-over-matches", ok, "has reduces any() over the match tests, not over the matching items (whose own truthiness is irrelevant)")
     return {"obligations": obs, "samples": [], "trusted": ["user __getitem__ is deterministic (the same lookup gives the same value in both forms)"], "functions": [],
-            "assumptions": [], "not_covered": ["sort/uniq/compact/map/concat/slice laws, split/join, url and base64 inverses, strip/replace/remove: not under contract"]}
+            "assumptions": [], "not_covered": ["sort/uniq/compact/map/concat and list-slice laws, join on lists, base64 inverses: not under contract (site rules only for sorting and selection predicates)"]}
 
 
 @register("C01")
